@@ -439,3 +439,153 @@ Proof.
   - eapply Permutation_in; [apply Permutation_sym; exact HP|exact Hin].
   - eapply Permutation_in; [exact HP|exact Hin].
 Qed.
+
+(* ------------------------------------------- "=x" and "<>x" partition *)
+(* text operand: the two closures are complements on every cell *)
+Lemma partition_text w x b :
+  sat (COpText OEq w) x = Ok b -> sat (COpText ONe w) x = Ok (negb b).
+Proof.
+  destruct x; cbn [sat]; try (intros H; injection H as <-; reflexivity).
+  - intros H. injection H as <-. destruct w; reflexivity.
+  - destruct (lower_str s) as [u|e]; cbn [bind cmp_cop]; [|discriminate].
+    intros H. injection H as <-. reflexivity.
+Qed.
+
+(* cells on which a numeric operand partitions: everything except text that
+   is_number accepts (a numeric text satisfies both, see Refuted/C15_partition.v) *)
+Definition part_ok (x : pyval) : Prop :=
+  match x with
+  | VNone | VBool _ | VInt _ => True
+  | VStr s => is_num (VStr s) = Ok false
+  | _ => False
+  end.
+
+Ltac num_run :=
+  unfold is_num, to_num, excelutil.f_is_number, excelutil.f_is_array_arg, excelutil.f_is_address, py_fuel;
+  repeat (progress (py_step; cbn [excelutil.f_coerce_to_number py_float])).
+
+Lemma is_num_none : is_num VNone = Ok false.
+Proof. num_run. reflexivity. Qed.
+Lemma is_num_int z : is_num (VInt z) = Ok true.
+Proof. num_run. reflexivity. Qed.
+Lemma is_num_bool c : is_num (VBool c) = Ok true.
+Proof. num_run. reflexivity. Qed.
+Lemma to_num_int z : to_num (VInt z) = Ok (VInt z).
+Proof. num_run. reflexivity. Qed.
+Lemma to_num_bool c : to_num (VBool c) = Ok (VBool c).
+Proof. num_run. reflexivity. Qed.
+
+Lemma partition_num n x b : part_ok x ->
+  sat (CNumEq n) x = Ok b -> sat (COpNum ONe n) x = Ok (negb b).
+Proof.
+  destruct x; cbn [part_ok]; try contradiction; intros Hp; cbn [sat].
+  - rewrite is_num_none. cbn [bind]. intros H. injection H as <-. reflexivity.
+  - rewrite is_num_bool. cbn [bind]. rewrite to_num_bool. cbn [bind cmp_cop].
+    intros H. injection H as <-. reflexivity.
+  - rewrite is_num_int. cbn [bind]. rewrite to_num_int. cbn [bind cmp_cop].
+    intros H. injection H as <-. reflexivity.
+  - rewrite Hp. cbn [bind]. intros H. injection H as <-. reflexivity.
+Qed.
+
+(* how "=v" and "<>v" parse *)
+Lemma lookup_eq : lookup_op [61] = Ok OEq.
+Proof. reflexivity. Qed.
+Lemma lookup_ne : lookup_op [60; 62] = Ok ONe.
+Proof. reflexivity. Qed.
+
+Lemma newline_eq v : has_newline (61 :: v) = has_newline v.
+Proof. reflexivity. Qed.
+Lemma newline_ne v : has_newline (60 :: 62 :: v) = has_newline v.
+Proof. reflexivity. Qed.
+
+Lemma parse_eq_text v w : is_num (VStr (61 :: v)) = Ok false -> has_newline v = false ->
+  is_num (VStr v) = Ok false -> has_wild v = false -> lower_str v = Ok w ->
+  parse_criteria (VStr (61 :: v)) = Ok (COpText OEq w).
+Proof.
+  intros H0 Hn Hv Hw Hl. unfold parse_criteria. rewrite H0. cbn [bind].
+  rewrite newline_eq, Hn. cbn [split_op fst snd]. rewrite lookup_eq. cbn [bind].
+  rewrite Hv. cbn [bind is_eq andb]. rewrite Hw, Hl. reflexivity.
+Qed.
+Lemma parse_ne_text v w : is_num (VStr (60 :: 62 :: v)) = Ok false -> has_newline v = false ->
+  is_num (VStr v) = Ok false -> lower_str v = Ok w ->
+  parse_criteria (VStr (60 :: 62 :: v)) = Ok (COpText ONe w).
+Proof.
+  intros H0 Hn Hv Hl. unfold parse_criteria. rewrite H0. cbn [bind].
+  rewrite newline_ne, Hn. cbn [split_op fst snd]. rewrite lookup_ne. cbn [bind].
+  rewrite Hv. cbn [bind is_eq andb]. rewrite Hl. reflexivity.
+Qed.
+Lemma parse_eq_num v n : is_num (VStr (61 :: v)) = Ok false -> has_newline v = false ->
+  is_num (VStr v) = Ok true -> to_num (VStr v) = Ok n ->
+  parse_criteria (VStr (61 :: v)) = Ok (CNumEq n).
+Proof.
+  intros H0 Hn Hv Ht. unfold parse_criteria. rewrite H0. cbn [bind].
+  rewrite newline_eq, Hn. cbn [split_op fst snd]. rewrite lookup_eq. cbn [bind].
+  rewrite Hv. cbn [bind is_eq andb]. rewrite Ht. reflexivity.
+Qed.
+Lemma parse_ne_num v n : is_num (VStr (60 :: 62 :: v)) = Ok false -> has_newline v = false ->
+  is_num (VStr v) = Ok true -> to_num (VStr v) = Ok n ->
+  parse_criteria (VStr (60 :: 62 :: v)) = Ok (COpNum ONe n).
+Proof.
+  intros H0 Hn Hv Ht. unfold parse_criteria. rewrite H0. cbn [bind].
+  rewrite newline_ne, Hn. cbn [split_op fst snd]. rewrite lookup_ne. cbn [bind].
+  rewrite Hv. cbn [bind is_eq andb]. rewrite Ht. reflexivity.
+Qed.
+
+(* the operand v is "plain": the criteria "=v" and "<>v" are not numbers
+   themselves and v has no line feed *)
+Definition plain_operand (v : str) : Prop :=
+  is_num (VStr (61 :: v)) = Ok false /\ is_num (VStr (60 :: 62 :: v)) = Ok false
+  /\ has_newline v = false.
+
+(* C15_partition_partial, on one cell *)
+Theorem partition_cell v x b : plain_operand v ->
+  (is_num (VStr v) = Ok false /\ has_wild v = false /\ (exists w, lower_str v = Ok w))
+  \/ (is_num (VStr v) = Ok true /\ (exists n, to_num (VStr v) = Ok n) /\ part_ok x) ->
+  criteria_check (VStr (61 :: v)) x = Ok (VBool b) ->
+  criteria_check (VStr (60 :: 62 :: v)) x = Ok (VBool (negb b)).
+Proof.
+  intros (H1 & H2 & H3) [(Hv & Hw & w & Hl)|(Hv & (n & Ht) & Hp)]; unfold criteria_check.
+  - rewrite (parse_eq_text v w H1 H3 Hv Hw Hl), (parse_ne_text v w H2 H3 Hv Hl). cbn [bind].
+    destruct (sat (COpText OEq w) x) as [b'|e] eqn:E; cbn [bind]; [|discriminate].
+    intros H. injection H as <-. rewrite (partition_text w x b' E). reflexivity.
+  - rewrite (parse_eq_num v n H1 H3 Hv Ht), (parse_ne_num v n H2 H3 Hv Ht). cbn [bind].
+    destruct (sat (CNumEq n) x) as [b'|e] eqn:E; cbn [bind]; [|discriminate].
+    intros H. injection H as <-. rewrite (partition_num n x b' Hp E). reflexivity.
+Qed.
+
+(* ... and on a whole range: the positions selected by "=v" and by "<>v" are
+   complementary *)
+Lemma find_cells_In c cells l i x : NoDup (map fst cells) -> find_cells c cells = Ok l ->
+  In (i, x) cells -> (In i l <-> sat c x = Ok true).
+Proof.
+  intros Hnd H Hin. destruct (find_cells_spec c cells l Hnd H) as (_ & Hl & Htot).
+  rewrite Hl. destruct (Htot i x Hin) as (b & Hb). split.
+  - intros (y & Hy & Hs). rewrite (fst_unique cells i x y Hnd Hin Hy). 
+    destruct (Htot i y Hy) as (b' & Hb'). rewrite Hb'. f_equal. apply (sat_spec c y b' Hb'). exact Hs.
+  - intros Hs. exists x. split; [exact Hin|]. apply (sat_spec c x true Hs). reflexivity.
+Qed.
+
+Theorem partition_range v rows l1 l2 : plain_operand v ->
+  (is_num (VStr v) = Ok false /\ has_wild v = false /\ (exists w, lower_str v = Ok w))
+  \/ (is_num (VStr v) = Ok true /\ (exists n, to_num (VStr v) = Ok n)
+      /\ forall i x, In (i, x) (enum_rows 0 rows) -> part_ok x) ->
+  scan rows (VStr (61 :: v)) = Ok l1 -> scan rows (VStr (60 :: 62 :: v)) = Ok l2 ->
+  forall i x, In (i, x) (enum_rows 0 rows) -> (In i l1 <-> ~ In i l2).
+Proof.
+  intros Hpl Hcase. unfold scan.
+  destruct (parse_criteria (VStr (61 :: v))) as [c1|e] eqn:P1; cbn [bind]; [|discriminate].
+  destruct (parse_criteria (VStr (60 :: 62 :: v))) as [c2|e] eqn:P2; cbn [bind]; [|discriminate].
+  intros F1 F2 i x Hin.
+  rewrite (find_cells_In c1 _ l1 i x (enum_rows_NoDup 0 rows) F1 Hin).
+  rewrite (find_cells_In c2 _ l2 i x (enum_rows_NoDup 0 rows) F2 Hin).
+  destruct (find_cells_spec c1 _ l1 (enum_rows_NoDup 0 rows) F1) as (_ & _ & T1).
+  destruct (T1 i x Hin) as (b & Hb).
+  assert (Hcell : (is_num (VStr v) = Ok false /\ has_wild v = false /\ (exists w, lower_str v = Ok w))
+                  \/ (is_num (VStr v) = Ok true /\ (exists n, to_num (VStr v) = Ok n) /\ part_ok x)).
+  { destruct Hcase as [H|(Ha & Hb' & Hc)]; [left; exact H|right; eauto]. }
+  pose proof (partition_cell v x b Hpl Hcell) as HP. unfold criteria_check in HP.
+  rewrite P1, P2 in HP. cbn [bind] in HP. rewrite Hb in HP. cbn [bind] in HP.
+  specialize (HP eq_refl).
+  destruct (sat c2 x) as [b2|e]; cbn [bind] in HP; [|discriminate].
+  injection HP as ->. rewrite Hb. destruct b; cbn; split; congruence.
+Qed.
